@@ -220,6 +220,49 @@ pub fn run(ctx: &Ctx, plans: Vec<LawPlan>, min_n: u64) {
     );
 }
 
+/// StandardGeometric is a deterministic function of the leading zeros of its words: the value must be the
+/// number of leading zero *bits of the stream* (k zeros then a one: probability 2^-(k+1) exactly under ideal
+/// words). Every k in 0..=191 is forced (up to three words), with random low bits: the exact induced law.
+pub fn standard_geometric_exact(ctx: &Ctx) {
+    use crate::rng::VRng;
+    use rand::RngExt;
+    use rand_distr::Distribution;
+    let mut low = BaseRng::from_env(hseed(&[ctx.seed, 0x57D6]));
+    let cell = Cell::newi(Fam::StandardGeometric, &[], &[]);
+    let mut ev = 0u64;
+    for rep in 0..64u64 {
+        for k in 0..192u64 {
+            let mut rng = VRng::from_env(hseed(&[ctx.seed, rep, k]));
+            let (zero_words, kk) = (k / 64, k % 64);
+            for z in 0..zero_words {
+                rng.force(z, 0);
+            }
+            let w = (1u64 << (63 - kk)) | (low.random::<u64>() & ((1u64 << (63 - kk)) - 1));
+            rng.force(zero_words, w);
+            rng.begin_call();
+            let r = crate::report::catch(|| rand_distr::StandardGeometric.sample(&mut rng));
+            ev += 1;
+            let ok = matches!(r, Ok(v) if v == k) && rng.call_words == zero_words + 1;
+            if !ok {
+                ctx.violation(Violation {
+                    property: ctx.property.clone(),
+                    family: "StandardGeometric".into(),
+                    float: "-".into(),
+                    symptom: "law:exact".into(),
+                    trigger: format!("leading_zero_bits:{k}"),
+                    what: format!("StandardGeometric: a stream starting with {k} zero bits then a one bit returned {:?} after {} words (expected {k} after {} words): the induced law is not 2^-(k+1)", r, rng.call_words, zero_words + 1),
+                    case: json!({"kind": "law", "cell": cell, "n": 1000000}),
+                });
+                ctx.eval(ev);
+                return;
+            }
+        }
+    }
+    ctx.eval(ev);
+    ctx.nontrivial_add(192);
+    ctx.class("standard_geometric_exact_streams", ev);
+}
+
 pub fn replay(ctx: &Ctx, case: &Value) -> bool {
     let cell: Cell = match serde_json::from_value(case["cell"].clone()) {
         Ok(c) => c,
